@@ -12,6 +12,16 @@ with raise_exc=True); the probe-sandwich shape puts the probe before the call th
 'pathkw' entries pass a caller-owned path= list to dict specs of tuple chains / T call steps / Coalesces,
 'optdefaults' entries are Match dict patterns with 3-5 absent Optional keys (plain and failing defaults);
 the repeat-inputs shape evaluates them again with the very same input objects.
+Sub 'fold': 'vecfold' entries - a default-op fold (Sum, Sum(init=float), Fold with init int / tuple / str, Flatten, behind [T], in a
+dict spec, in a Coalesce, and each as a Group aggregator) over a list / tuple of elements of an additive user class (the Bag family
+below, c15's Vec family): 0 + x is x or a copy, x + <identity> is x / the other operand / a copy, += in place or rebinding;
+constructed shape [x, e, (e,) y, ..] with e an empty instance / a zero vector / a literal 0; the same call two or three times, in
+half of the histories with the very same element objects ('same' steps keep the target of a vecfold entry).
+Sub 'exactreg': step 'xreg' registers, on the history's Glommer or (attribute class made for the history only) on the module-level
+registry, a class of the history or its base (dict / list / tuple / a middle class registered earlier without exact) for one of
+get / iterate / keys with one of three handlers that tag their result, exact or not; constructed: lookup of the unregistered subclass
+(by the call or by a HandlerProbe), exact registration of X, the call again; the cold reference makes the same registrations in the
+same order and evaluates the call first.
 
 Oracles
   frame       before/after every call the structure-and-identity snapshot of the target, of the spec
@@ -32,7 +42,7 @@ from hypothesis import strategies as st
 
 import glom
 import glom.core
-from glom import Match, Glommer, T, Coalesce, Sum, Iter, Optional
+from glom import Match, Glommer, T, Coalesce, Sum, Iter, Optional, Fold, Flatten
 from glom.core import TargetRegistry, UnregisteredTarget
 from glom.grouping import Group
 
@@ -40,19 +50,24 @@ from ..runner import Sub, Mismatch, HarnessBug
 from .. import targets as tg
 from .. import boot
 from .. import cold
-from . import c01, c03, c07, c09, c10, c14, c16, c17
+from . import c01, c03, c07, c09, c10, c14, c15, c16, c17
 
 warnings.filterwarnings('ignore', message=".*have changed behavior in glom version.*")
 
 PROPERTY = 'C06'
 RULE = ('histories of 3-12 steps over a pool of 2-4 (target, spec) pairs; steps: call / call-same-spec-object / flood n / '
         'flood 10050 / toggle PATH_STAR / register / Glommer register + call; pool entries include a custom spec probing '
-        'get_handler(op, target, raise_exc=False) and calls needing that handler. Non-trivial = >= 3 steps with, before a compared '
-        'call, a repeat of the same spec object, a cache flood, a toggle or a registry probe.')
+        'get_handler(op, target, raise_exc=False) and calls needing that handler. Sub fold: a default-op fold over [x, e, y, ..] of an '
+        'additive user class evaluated 2-3 times (same element objects in half of the cases). Sub exactreg: lookup of a subclass, exact '
+        'registration of its registered base with another handler, the call again. Non-trivial = >= 3 steps with, before a compared '
+        'call, a repeat of the same spec object, a cache flood, a toggle, a registry probe or an exact registration after a lookup.')
 ASSUMPTIONS = [
     'the pristine reference is a forked child of a fresh interpreter that imported glom but never called it (vf/cold.py)',
     'outcomes are compared canonically: structure with types and sharing pattern, error class and message with addresses stripped',
-    'module-level registrations are of fresh throw-away classes (they accumulate in the worker process and must not change any outcome)',
+    'module-level registrations are of fresh throw-away classes (they accumulate in the worker process and must not change any outcome); '
+    'those of xreg steps are of an attribute-only class made for the one history, for get only, and are repeated by the cold reference',
+    'vecfold entries: the element classes define + / += / 0 + x themselves; what the fold returns is compared with the pristine process only, '
+    'the elements must be the same objects with the same contents after every call',
 ]
 
 
@@ -103,9 +118,16 @@ REG_TYPES = {
     'listsub': (list, [1, 2]),
     'tuplesub': (tuple, (1, 2)),
     'dictsub': (dict, {'a': 1, 'b': 2}),
+    # two levels made for the history: Base(list) <- Sub(Base); the target is a Sub, Base is what gets registered
+    'midlist': (list, [1, 2]),
+    'middict': (dict, {'a': 1, 'b': 2}),
+    'midobj': (tg.Slots, None),
 }
+MID_TAGS = ['middict', 'midlist', 'midobj']
+REG_TAGS = sorted(t_ for t_ in REG_TYPES if t_ not in MID_TAGS)      # the one-level tags: what 'registry' entries draw from
 REG_OPS = ['iterate', 'get', 'keys', 'assign', 'delete']
-REG_GET_PATH = {'opaque': 'a', 'intsub': 'real', 'strsub': 'zz', 'listsub': '1', 'tuplesub': '0', 'dictsub': 'b'}
+REG_GET_PATH = {'opaque': 'a', 'intsub': 'real', 'strsub': 'zz', 'listsub': '1', 'tuplesub': '0', 'dictsub': 'b',
+                'midlist': '1', 'middict': 'b', 'midobj': 'a'}
 # forms of a call that NEEDS the handler of the operation ('strict': the custom spec asking with raise_exc=True;
 # Assign / Delete themselves are outside this property's domain)
 REG_FORMS = {
@@ -122,18 +144,32 @@ REG_UNHANDLED = [['iterate', 'opaque'], ['iterate', 'intsub'], ['keys', 'opaque'
                  ['delete', 'intsub'], ['delete', 'tuplesub'], ['delete', 'strsub']]
 
 
-def reg_target(tag, env):
+def reg_class(tag, env, which='self'):
+    """the class made for this history under a tag ('self': the class of the target) or the type it derives from ('base':
+    the builtin / tg.Slots for the one-level tags, the history's own middle class for the mid* tags)"""
+    base = REG_TYPES[tag][0]
+    if tag in MID_TAGS:
+        mid = env.get(tag + ':base')
+        if mid is None:
+            mid = env[tag + ':base'] = type(tag.capitalize() + 'Base', (base,), {'__slots__': ()})
+        base = mid
+    if which == 'base':
+        return base
     cls = env.get(tag)
     if cls is None:
-        base, _ = REG_TYPES[tag]
         name = tag.capitalize()
-        if base is tg.Slots:
-            def rep(self):
-                return 'Opaque(a=%r, b=%r)' % (self.a, self.b)
+        if REG_TYPES[tag][0] is tg.Slots:
+            def rep(self, name=name):
+                return '%s(a=%r, b=%r)' % (name, self.a, self.b)
         else:
-            def rep(self, name=name, base=base):
+            def rep(self, name=name, base=REG_TYPES[tag][0]):
                 return '%s(%s)' % (name, base.__repr__(self))
         cls = env[tag] = type(name, (base,), {'__slots__': (), '__repr__': rep})
+    return cls
+
+
+def reg_target(tag, env):
+    cls = reg_class(tag, env)
     value = REG_TYPES[tag][1]
     if value is None:
         obj = cls()
@@ -141,6 +177,96 @@ def reg_target(tag, env):
         obj.b = [1, 2]
         return obj
     return cls(value)
+
+
+# ---- registrations made DURING a history (step 'xreg'): handlers that show in the outcome which one was used
+def _plain_get(obj, key):
+    if isinstance(obj, dict):
+        return obj[key]
+    if isinstance(obj, (list, tuple)):
+        return obj[int(key)]
+    return getattr(obj, key)
+
+
+def _plain_keys(obj):
+    if isinstance(obj, dict):
+        return list(dict.keys(obj))
+    if isinstance(obj, (list, tuple)):
+        return list(range(len(obj)))
+    return [k_ for k_ in ('a', 'b') if hasattr(obj, k_)]
+
+
+def _plain_items(obj):
+    return list(obj) if hasattr(type(obj), '__iter__') else []
+
+
+def get_h1(obj, key):
+    return ['h1', _plain_get(obj, key)]
+
+
+def get_h2(obj, key):
+    return ['h2', _plain_get(obj, key)]
+
+
+def get_h3(obj, key):
+    return ['h3', _plain_get(obj, key)]
+
+
+def iterate_h1(obj):
+    return iter(['h1'] + _plain_items(obj))
+
+
+def iterate_h2(obj):
+    return iter(_plain_items(obj)[::-1] + ['h2'])
+
+
+def iterate_h3(obj):
+    return iter(['h3'])
+
+
+def keys_h1(obj):
+    return _plain_keys(obj)[::-1]
+
+
+def keys_h2(obj):
+    return _plain_keys(obj)[:1]
+
+
+def keys_h3(obj):
+    return _plain_keys(obj) + _plain_keys(obj)[:1]
+
+
+HANDLERS = {'get': {'h1': get_h1, 'h2': get_h2, 'h3': get_h3},
+            'iterate': {'h1': iterate_h1, 'h2': iterate_h2, 'h3': iterate_h3},
+            'keys': {'h1': keys_h1, 'h2': keys_h2, 'h3': keys_h3}}
+# operations an 'xreg' step may register per tag.  On the MODULE-level registry only classes made for the history are ever
+# registered, and only for 'get' on the attribute-only midobj: a class with an 'iterate' / 'keys' handler would be listed
+# by name in the UnregisteredTarget messages of every later case of the process
+XREG_OPS = {'listsub': ['iterate', 'get'], 'tuplesub': ['iterate', 'get'], 'dictsub': ['get', 'keys', 'iterate'],
+            'midlist': ['iterate', 'get'], 'middict': ['get', 'keys', 'iterate'], 'midobj': ['get', 'keys'],
+            'opaque': ['get', 'keys'], 'intsub': ['get'], 'strsub': ['get', 'iterate']}
+XREG_DEFAULT_TAGS = ['dictsub', 'listsub', 'tuplesub']      # subclasses of default types of every registry
+
+
+def apply_reg(registry, reg, env):
+    """one registration of a history on `registry` (the glom module or a Glommer); shared with the cold server.
+    ['slots']: tg.Slots, get=custom_get (step 'greg');  [tag, which, op, handler name, exact] (step 'xreg')"""
+    if reg[0] == 'slots':
+        registry.register(tg.Slots, get=custom_get)
+        return
+    tag, which, op, hname, exact = reg
+    cls = reg_class(tag, env, which)
+    if registry is glom and (op != 'get' or tag != 'midobj'):
+        raise HarnessBug('module-level registration of %r for %r' % (cls, op))
+    kw = {op: HANDLERS[op][hname]}
+    if exact:
+        kw['exact'] = True
+    registry.register(cls, **kw)
+
+
+def apply_regs(registry, regs, env):
+    for reg in regs:
+        apply_reg(registry, reg, env)
 
 
 def reg_spec(op, form, tag):
@@ -208,6 +334,109 @@ def opt_pattern(keys):
     return Match(pat)
 
 
+# ---- folds with the default (in-place) op over elements of additive user classes: the elements belong to the target
+class Bag(object):
+    """a small additive value type: + concatenates, an empty / zero operand is the identity, += works in place.
+    Class attributes pick the idioms: RADD0 (0 + x is x itself - what makes sum() work without a copy), ADD_IDENTITY
+    ('copy': x + <empty> is a new object; 'self': it is x; 'either': whichever operand is not empty), IADD ('inplace':
+    the item list is extended; 'rebind': a new item list is bound)"""
+    RADD0 = True
+    ADD_IDENTITY = 'copy'
+    IADD = 'inplace'
+
+    def __init__(self, items=()):
+        self.items = list(items)
+
+    def __bool__(self):
+        return bool(self.items)
+
+    def __add__(self, other):
+        if not isinstance(other, Bag) and other:
+            return NotImplemented
+        if not other:
+            return self if self.ADD_IDENTITY in ('self', 'either') else type(self)(self.items)
+        if not self and self.ADD_IDENTITY == 'either':
+            return other
+        return type(self)(self.items + other.items)
+
+    def __radd__(self, other):
+        if isinstance(other, Bag) or other:
+            return NotImplemented
+        return self if self.RADD0 else type(self)(self.items)
+
+    def __iadd__(self, other):
+        if not isinstance(other, Bag) and other:
+            return NotImplemented
+        extra = list(other.items) if isinstance(other, Bag) else []
+        if self.IADD == 'rebind':
+            self.items = self.items + extra
+        else:
+            self.items.extend(extra)
+        return self
+
+    def __repr__(self):
+        return '%s(%r)' % (type(self).__name__, self.items)
+
+
+BAGS = {}
+for _name, _radd0, _ident, _iadd in [('bag-plain', False, 'copy', 'inplace'), ('bag-radd0', True, 'copy', 'inplace'),
+                                     ('bag-addself', True, 'self', 'inplace'), ('bag-addeither', True, 'either', 'inplace'),
+                                     ('bag-addself-rebind', True, 'self', 'rebind')]:
+    BAGS[_name] = type('Bag' + ''.join(w.capitalize() for w in _name.split('-')[1:]), (Bag,),
+                       {'RADD0': _radd0, 'ADD_IDENTITY': _ident, 'IADD': _iadd})
+FOLD_VARIANTS = sorted(BAGS) + ['vec-' + k_ for k_ in sorted(c15.VECS)]
+# spec forms: every entry point that folds with the default op, plain and as a Group aggregator
+FOLD_FORMS = {
+    'sum': lambda: Sum(),
+    'sum-float': lambda: Sum(init=float),
+    'fold': lambda: Fold(T, init=int),
+    'fold-tuple': lambda: Fold(T, init=tuple),
+    'fold-str': lambda: Fold(T, init=str),
+    'flatten': lambda: Flatten(),
+    'chain-sum': lambda: ([T], Sum()),
+    'dict-sum': lambda: {'total': Sum(), 'n': len},
+    'sumdef': lambda: Coalesce(Sum(), default='n/a'),
+    'group-sum': lambda: Group(Sum()),
+    'group-fold': lambda: Group(Fold(T, init=int)),
+    'group-fold-tuple': lambda: Group(Fold(T, init=tuple)),
+    'group-flatten': lambda: Group(Flatten()),
+}
+FOLD_INIT = {'sum': int, 'sum-float': float, 'fold': int, 'fold-tuple': tuple, 'fold-str': str, 'flatten': list, 'chain-sum': int,
+             'dict-sum': int, 'sumdef': int, 'group-sum': int, 'group-fold': int, 'group-fold-tuple': tuple, 'group-flatten': list}
+FOLD_FORMS_VEC = ['sum', 'sum', 'sum-float', 'fold', 'chain-sum', 'dict-sum', 'sumdef', 'group-sum', 'group-sum', 'group-fold']   # (Vec: 0 + v only)
+FOLD_FORMS_BAG = FOLD_FORMS_VEC + ['fold-tuple', 'fold-str', 'group-fold-tuple', 'flatten', 'group-flatten']
+
+
+def fold_elems(r):
+    """the elements of a 'vecfold' recipe, newly built: a list of ints per element (the items of a Bag / the components
+    of a c15 Vec) or the literal 0"""
+    v = r['variant']
+    if v.startswith('vec-'):
+        cls = c15.VECS[v[4:]]
+        return [0 if xs == 0 else cls(*xs) for xs in r['elems']]
+    return [0 if xs == 0 else BAGS[v](xs) for xs in r['elems']]
+
+
+def fold_hazard(r):
+    """plain Python, on a copy of the elements: the fold's start value + first element IS the first element, adding the
+    following element(s) hands that same object back (identity operands), and a further element follows - so the running
+    total is an object of the target when that element arrives"""
+    import operator
+    elems = fold_elems(r)
+    if len(elems) < 3:
+        return False
+    try:
+        acc = operator.iadd(FOLD_INIT[r['form']](), elems[0])
+        if acc is not elems[0] or isinstance(acc, int):
+            return False
+        i = 1
+        while i < len(elems) and (acc + elems[i]) is acc:
+            i += 1
+    except TypeError:
+        return False
+    return 1 < i < len(elems)
+
+
 def build_entry(kind, r, env=None):
     """(target, spec, kwargs) - a pure function of the recipe (env: the classes made for the running history)"""
     if kind == 'pathkw':
@@ -217,6 +446,9 @@ def build_entry(kind, r, env=None):
         return dict((k_, 7) for k_ in r['present']), opt_pattern(r['keys']), {}
     if kind == 'registry':
         return reg_target(r['type'], {} if env is None else env), reg_spec(r['op'], r['form'], r['type']), {}
+    if kind == 'vecfold':
+        elems = fold_elems(r)
+        return (tuple(elems) if r['container'] == 'tuple' else elems), FOLD_FORMS[r['form']](), {}
     if kind == 'c03':
         return tg.build(r['target']).obj, c03.build(r['spec'], []), {}
     if kind == 'c01':
@@ -224,9 +456,13 @@ def build_entry(kind, r, env=None):
         sp = 'str' if 'str' in c01.spellings(steps) else 'path'
         return tg.build(r['target']).obj, c01.make_spec(steps, sp), {}
     if kind == 'c09':
-        return tg.build(r['target']).obj, Match(c09.build_pat(r['pattern'])), {}
+        # (c09's recipes extend the grammar of vf.targets by value leaves of its own: its builder, where it has one)
+        target = c09.tbuild(r['target']) if hasattr(c09, 'tbuild') else tg.build(r['target']).obj
+        return target, Match(c09.build_pat(r['pattern'])), {}
     if kind == 'c10':
-        return tg.build(r['target']).obj, Match(c10.build_tree(r['tree'], [], r['build'])), {}
+        # (c10's recipes extend the grammar of vf.targets by value classes of its own: its builder, where it has one)
+        target = c10.bval(r['target']) if hasattr(c10, 'bval') else tg.build(r['target']).obj
+        return target, Match(c10.build_tree(r['tree'], [], r['build'])), {}
     if kind == 'c14':
         return c14.build_graph(r['graph']).obj, '.'.join(r['segs']), {}
     if kind == 'c16':
@@ -259,7 +495,7 @@ def build_entry(kind, r, env=None):
 
 def gen_registry(draw, pair=None, probe=None):
     op, tag = pair or (draw(st.sampled_from(REG_UNHANDLED)) if draw(st.booleans()) else
-                       [draw(st.sampled_from(REG_OPS)), draw(st.sampled_from(sorted(REG_TYPES)))])
+                       [draw(st.sampled_from(REG_OPS)), draw(st.sampled_from(REG_TAGS))])
     if probe is None:
         probe = draw(st.booleans())
     form = 'probe' if probe else draw(st.sampled_from(REG_FORMS[op]))
@@ -301,6 +537,35 @@ def gen_optdefaults(draw):
     # at least three keys stay absent
     present = [name for name in names[3:] if draw(st.booleans())]
     return {'kind': 'optdefaults', 'recipe': {'keys': [list(k_) for k_ in keys], 'present': present}}
+
+
+def gen_vecfold(draw, shape=None):
+    """a default-op fold over elements of an additive user class.  shape 'x-e-y' (by construction): a first element, then
+    one or two identity operands (an empty instance, a zero vector, a literal 0), then one to three more elements"""
+    variant = draw(st.sampled_from(FOLD_VARIANTS))
+    if shape is None:
+        shape = draw(st.sampled_from(['x-e-y', 'free', 'free']))
+    is_vec = variant.startswith('vec-')
+    dim = draw(st.sampled_from([1, 2, 3]))
+
+    def full():
+        if is_vec:
+            return [draw(st.sampled_from([-2, -1, 1, 2, 3, 5])) for _ in range(dim)]
+        return [draw(st.sampled_from(range(1, 10))) for _ in range(draw(st.sampled_from([1, 1, 2, 3])))]
+
+    def identity():
+        if is_vec:
+            return [0] * dim
+        return 0 if draw(st.sampled_from(range(4))) == 0 else []
+    if shape == 'x-e-y':
+        elems = [full()] + [identity() for _ in range(draw(st.sampled_from([1, 1, 2])))] + \
+            [full() for _ in range(draw(st.sampled_from([1, 1, 2, 3])))]
+        if draw(st.sampled_from(range(4))) == 0:
+            elems.append(identity())
+    else:
+        elems = [identity() if draw(st.sampled_from(range(3))) == 0 else full() for _ in range(draw(st.sampled_from(range(6))))]
+    return {'kind': 'vecfold', 'recipe': {'variant': variant, 'elems': elems, 'form': draw(st.sampled_from(FOLD_FORMS_VEC if is_vec else FOLD_FORMS_BAG)),
+                                          'container': draw(st.sampled_from(['list', 'list', 'tuple']))}}
 
 
 def gen_entry(draw):
@@ -354,11 +619,9 @@ def gen_entry(draw):
     return {'kind': kind, 'recipe': r}
 
 
-def gen(draw):
-    pool = [gen_entry(draw) for _ in range(draw(st.integers(2, 4)))]
-    n = len(pool)
+def gen_steps(draw, n, count):
     steps = []
-    for _ in range(draw(st.integers(3, 12))):
+    for _ in range(count):
         k = draw(st.sampled_from(['call', 'call', 'same', 'same', 'same', 'flood', 'toggle', 'register', 'greg', 'gcall', 'gcall', 'gsame', 'specglom']))
         if k in ('call', 'same', 'gcall', 'gsame', 'specglom'):
             steps.append([k, draw(st.integers(0, n - 1))])
@@ -366,8 +629,25 @@ def gen(draw):
             steps.append(['flood', draw(st.sampled_from([3, 50, 50, 10050]))])
         else:
             steps.append([k])
+    return steps
+
+
+def weave(draw, core, extra):
+    """the constructed steps in their order, up to len(extra) other steps in between"""
+    out = []
+    for c_ in core:
+        out.append(c_)
+        if extra and draw(st.booleans()):
+            out.append(extra.pop())
+    return out
+
+
+def gen(draw):
+    pool = [gen_entry(draw) for _ in range(draw(st.integers(2, 4)))]
+    n = len(pool)
+    steps = gen_steps(draw, n, draw(st.integers(3, 12)))
     # constructed histories (not left to chance): the same call before and after the event that could change it
-    shape = draw(st.sampled_from(['free', 'free', 'probe-sandwich', 'toggle-sandwich', 'repeat-inputs', 'greg-sandwich', 'flood-sandwich', 'toggle-sandwich', 'free']))
+    shape = draw(st.sampled_from(['free', 'free', 'probe-sandwich', 'toggle-sandwich', 'repeat-inputs', 'greg-sandwich', 'flood-sandwich', 'toggle-sandwich', 'repeat-inputs', 'probe-sandwich', 'free']))
     if shape != 'free':
         if shape == 'repeat-inputs':
             # the same call again with the very same input objects: a caller-supplied path= list handed in twice, a Match
@@ -384,7 +664,7 @@ def gen(draw):
             # a custom spec asks the registry with raise_exc=False; the call that needs that handler comes after it
             # (and, in half of the cases, before it too), through the same registry
             pair = draw(st.sampled_from(REG_UNHANDLED)) if draw(st.sampled_from(range(3))) else \
-                [draw(st.sampled_from(REG_OPS)), draw(st.sampled_from(sorted(REG_TYPES)))]
+                [draw(st.sampled_from(REG_OPS)), draw(st.sampled_from(REG_TAGS))]
             pool[0] = gen_registry(draw, pair, probe=False)
             pool[1] = gen_registry(draw, pair, probe=True)
             via = draw(st.sampled_from([['call', 'same', 'specglom'], ['call', 'same', 'specglom'], ['gcall', 'gsame']]))
@@ -404,14 +684,65 @@ def gen(draw):
                 core = core[1:] + [['toggle'], core[1]]
         else:
             core = [[draw(st.sampled_from(['call', 'same', 'gcall'])), 0], ['flood', 10050], [draw(st.sampled_from(['call', 'same', 'gcall'])), 0]]
-        extra = steps[:draw(st.integers(0, 3))]
-        out = []
-        for c_ in core:
-            out.append(c_)
-            if extra and draw(st.booleans()):
-                out.append(extra.pop())
-        steps = out
+        steps = weave(draw, core, steps[:draw(st.integers(0, 3))])
     return {'pool': pool, 'steps': steps, 'shape': shape}
+
+
+def gen_fold(draw):
+    """sub 'fold': histories around a default-op fold over [x, e.., y, ..] (x: start value + x is x; e: x + e is x), evaluated
+    two or three times - in half of the histories with the very same target objects -, other entries and events in between"""
+    pool = [gen_vecfold(draw, 'x-e-y' if draw(st.sampled_from(range(4))) else None)]
+    for _ in range(draw(st.sampled_from([0, 1, 1, 2]))):
+        pool.append(gen_vecfold(draw) if draw(st.sampled_from(range(3))) == 0 else gen_entry(draw))
+    if draw(st.booleans()):
+        vias = [draw(st.sampled_from(['same', 'same', 'gsame', 'specglom']))] * 3       # one spec object, the same target objects
+    else:
+        vias = [draw(st.sampled_from(['call', 'same', 'gcall', 'gsame', 'specglom'])) for _ in range(3)]
+    core = [[v, 0] for v in vias[:draw(st.sampled_from([2, 2, 3]))]]
+    extra = gen_steps(draw, len(pool), draw(st.sampled_from([0, 1, 2, 3])))
+    return {'pool': pool, 'steps': weave(draw, core, extra), 'shape': 'fold-repeat'}
+
+
+def gen_xreg(draw, where=None):
+    """a registration step: on the module-level registry only the history's own attribute class, for 'get'"""
+    if where is None:
+        where = draw(st.sampled_from(['module', 'glommer', 'glommer']))
+    tag = 'midobj' if where == 'module' else draw(st.sampled_from(sorted(XREG_OPS)))
+    op = 'get' if where == 'module' else draw(st.sampled_from(XREG_OPS[tag]))
+    return ['xreg', where, tag, draw(st.sampled_from(['base', 'base', 'self'])), op, draw(st.sampled_from(['h1', 'h2', 'h3'])),
+            draw(st.sampled_from([True, True, False]))]
+
+
+def gen_exact(draw):
+    """sub 'exactreg': an instance of an unregistered subclass of X is looked up for an operation, THEN X - a default type of
+    the registry (dict / list / tuple) or a class registered earlier in the history without exact - is registered for that
+    operation with another handler and exact=True, then the same call is made again.  Controls by construction: the exact
+    registration of a type new to the tree, of the target's own class, a non-exact re-registration."""
+    where = draw(st.sampled_from(['module', 'glommer', 'glommer']))
+    if where == 'module':
+        tag, op = 'midobj', 'get'
+    else:
+        tag = draw(st.sampled_from(XREG_DEFAULT_TAGS + MID_TAGS))
+        op = draw(st.sampled_from(XREG_OPS[tag]))
+    pool = [{'kind': 'registry', 'recipe': {'op': op, 'type': tag, 'form': draw(st.sampled_from(REG_FORMS[op]))}},
+            {'kind': 'registry', 'recipe': {'op': op, 'type': tag, 'form': 'probe'}}]
+    for _ in range(draw(st.sampled_from([0, 1, 1, 2]))):
+        pool.append(gen_entry(draw))
+    vias = ['gcall', 'gsame'] if where == 'glommer' else ['call', 'same', 'specglom']
+    core = []
+    if tag in MID_TAGS and draw(st.sampled_from(range(5))):
+        core.append(['xreg', where, tag, 'base', op, 'h1', False])        # X enters the type tree
+    # the lookup that warms the registry's memo for the subclass: the call itself, or a custom spec asking for the handler
+    core.append([draw(st.sampled_from(vias)), draw(st.sampled_from([0, 0, 1]))])
+    handlers = ['h2', 'h3'] if draw(st.booleans()) else ['h3', 'h2']
+    for rnd in range(draw(st.sampled_from([1, 1, 2]))):
+        core.append(['xreg', where, tag, draw(st.sampled_from(['base', 'base', 'base', 'base', 'self'])), op, handlers[rnd],
+                     draw(st.sampled_from([True, True, True, True, False]))])
+        core.append([draw(st.sampled_from(vias)), 0])
+    extra = gen_steps(draw, len(pool), draw(st.sampled_from([0, 0, 1, 2])))
+    if draw(st.sampled_from(range(3))) == 0:
+        extra.append(gen_xreg(draw))
+    return {'pool': pool, 'steps': weave(draw, core, extra), 'shape': 'exact-sandwich'}
 
 
 # ---------------------------------------------------------------------------
@@ -466,6 +797,19 @@ def check(recipe, ctx):
     last_result = {}
     env = {}
     probed = {}             # (registry, op, type tag) -> what the raise_exc=False probe returned, since the last registration
+    regs = {'module': [], 'glommer': []}    # the registrations that can matter to a pool entry, in their order
+    in_tree = set()         # (registry, type tag): the tag's base class was registered without exact
+    looked = set()          # (registry, type tag, op) looked up since the last registration on that registry
+    pending = {}            # (registry, type tag, op): X registered exact=True after a lookup of its unregistered subclass
+    same_target = {}
+    labelled = set()
+
+    def once(*names):
+        # (the classes of the 'fold' / 'exactreg' histories are counted per case, not per step)
+        for n_ in names:
+            if n_ not in labelled:
+                labelled.add(n_)
+                ctx.label(n_)
     history_markers = 0
     compared = 0
     interesting = False
@@ -489,12 +833,35 @@ def check(recipe, ctx):
                 cls = type('Throwaway', (object,), {'__slots__': ()})
                 glom.register(cls, get=lambda o, key: None)
                 probed = dict((k_, v_) for k_, v_ in probed.items() if k_[0] != 'module')
+                looked = set(k_ for k_ in looked if k_[0] != 'module')
+                pending = dict((k_, v_) for k_, v_ in pending.items() if k_[0] != 'module')
                 continue
             if k == 'greg':
-                g.register(tg.Slots, get=custom_get)
+                apply_reg(g, ['slots'], env)
+                regs['glommer'].append(['slots'])
                 gregs += 1
                 ctx.label('glommer-register')
                 probed = dict((k_, v_) for k_, v_ in probed.items() if k_[0] != 'glommer')
+                looked = set(k_ for k_ in looked if k_[0] != 'glommer')
+                pending = dict((k_, v_) for k_, v_ in pending.items() if k_[0] != 'glommer')
+                continue
+            if k == 'xreg':
+                where, tag, which, op, hname, exact = step[1:]
+                apply_reg(g if where == 'glommer' else glom, [tag, which, op, hname, exact], env)
+                regs[where].append([tag, which, op, hname, exact])
+                once('xreg', 'xreg-exact' if exact else 'xreg-fuzzy')
+                # (generator-side knowledge, for the labels only) X has a place in the type tree of the operation: a default
+                # type of every registry, or a class of this history registered before without exact
+                known = which == 'base' and (tag in XREG_DEFAULT_TAGS or (where, tag) in in_tree)
+                if which == 'base' and not exact:
+                    in_tree.add((where, tag))
+                probed = dict((k_, v_) for k_, v_ in probed.items() if k_[0] != where)
+                pending = dict((k_, v_) for k_, v_ in pending.items() if k_[0] != where)
+                if exact and known and (where, tag, op) in looked:
+                    pending[(where, tag, op)] = tag in XREG_DEFAULT_TAGS
+                    history_markers += 1
+                    once('exact-reg-after-lookup')
+                looked = set(k_ for k_ in looked if k_[0] != where)
                 continue
             i = step[1] % len(pool)
             entry = pool[i]
@@ -518,6 +885,13 @@ def check(recipe, ctx):
                 else:
                     same[key] = spec
                     same_kw[key] = kw
+                if entry['kind'] == 'vecfold':
+                    # the caller folds the very same elements again
+                    if key in same_target:
+                        target = same_target[key]
+                        once('fold-same-target-again')
+                    else:
+                        same_target[key] = target
             t_snap = tg.snapshot(target)
             s_snap = tg.snapshot(spec)
             s_repr = cold.ADDR.sub('', repr(spec))
@@ -553,7 +927,7 @@ def check(recipe, ctx):
                 raise Mismatch('path-mutated', '%s: the path= list of the caller, %r, is now %r' % (where, path_items, path_list))
             # ---- history independence
             req = {'kind': entry['kind'], 'recipe': entry['recipe'], 'star': star, 'nreg': 0,
-                   'glommer': via_glommer, 'gregs': gregs if via_glommer else 0,
+                   'glommer': via_glommer, 'gregs': 0, 'regs': regs['glommer' if via_glommer else 'module'],
                    'specglom': call_scope if via_spec else None}
             resp = srv.ask(req)
             if 'outcome' not in resp:
@@ -563,7 +937,7 @@ def check(recipe, ctx):
                 interesting = True
             if resp['outcome'] != got:
                 raise Mismatch('history-dependent', '%s: outcome %r, but %r when evaluated first in a pristine process '
-                               '(PATH_STAR=%r, %d Glommer registrations)' % (where, got, resp['outcome'], star, gregs if via_glommer else 0))
+                               '(PATH_STAR=%r, registrations %r)' % (where, got, resp['outcome'], star, req['regs']))
             # ---- the outcome (the order of a result dict's keys and which error is raised included) is no function of the
             # interpreter's hash seed either: same pair, pristine process under another PYTHONHASHSEED
             if entry['kind'] == 'optdefaults':
@@ -577,8 +951,17 @@ def check(recipe, ctx):
                     raise Mismatch('hash-seed-dependent', '%s: outcome %r, but %r when evaluated first in a pristine process under '
                                    'PYTHONHASHSEED=%s (this process: 0)' % (where, got, resp2['outcome'], OTHER_HASHSEED))
             # ---- (labels) a registry lookup after a custom spec has asked for the same handler with raise_exc=False
+            if entry['kind'] == 'vecfold':
+                once('fold-elements')
+                if fold_hazard(entry['recipe']):
+                    once('fold-borrowed-identity', 'fold-borrowed-identity-' + ('group' if entry['recipe']['form'].startswith('group') else 'plain'))
             if entry['kind'] == 'registry':
                 r_ = entry['recipe']
+                lkey = ('glommer' if via_glommer else 'module', r_['type'], r_['op'])
+                looked.add(lkey)
+                if lkey in pending:
+                    once('need-after-exact-reg', 'need-after-exact-reg-' + ('default-type' if pending.pop(lkey) else 'registered-type'),
+                              'need-after-exact-reg-' + lkey[0])
                 pkey = ('glommer' if via_glommer else 'module', r_['op'], r_['type'])
                 if r_['form'] == 'probe':
                     ctx.label('registry-probe')
@@ -617,6 +1000,13 @@ def check(recipe, ctx):
 
 
 SUBS = [
+    Sub('fold', check, gen=gen_fold, quick=320, thorough=800,
+        floors={'fold-borrowed-identity': 0.2, 'fold-borrowed-identity-plain': 0.13, 'fold-borrowed-identity-group': 0.06, 'fold-same-target-again': 0.22},
+        doc='default-op folds (Sum / Fold / Flatten, plain and as Group aggregators) over [x, e.., y, ..] of additive user classes, repeated'),
+    Sub('exactreg', check, gen=gen_exact, quick=320, thorough=800,
+        floors={'need-after-exact-reg': 0.28, 'need-after-exact-reg-default-type': 0.09, 'need-after-exact-reg-registered-type': 0.18,
+                'need-after-exact-reg-module': 0.09, 'need-after-exact-reg-glommer': 0.18, 'xreg-fuzzy': 0.3},
+        doc='lookup of an unregistered subclass, then register(X, op=other handler, exact=True) for an X already in the type tree, then the call again'),
     Sub('history', check, gen=gen, quick=1600, thorough=4000,
         floors={'toggle': 0.2, 'flood-small': 0.06, 'flood-big': 0.04, 'glommer-register': 0.12, 'shape-greg-sandwich': 0.03, 'shape-toggle-sandwich': 0.04, 'scope-literal': 0.03,
                 'caller-path': 0.08, 'caller-path-reused': 0.008, 'optional-defaults': 0.06, 'optional-defaults-failing': 0.02,
